@@ -616,6 +616,68 @@ B("c02-pin-cite-from-second-search", ["C02"], "helpers.py", '    citation.metada
   '    citation.metadata.extra = (m["extra"] or "").strip() or None\n    m2 = re.search(r"(?P<pin_cite>at \\d+)", m["extra"] or "")\n    if m2 and not citation.metadata.pin_cite:\n        citation.metadata.pin_cite = m2["pin_cite"]\n',
   rule="R-C02-8")
 
+# lazily initialised module variables (R-C15-6 without the decorator)
+_GY = "def get_year(word: str) -> Optional[int]:\n"
+N("c15-lazy-global-constant-table", ["C15", "C04", "C18"], "helpers.py", _GY,
+  "_MONTHS = None\n\n\ndef _months():\n    global _MONTHS\n    if _MONTHS is None:\n        _MONTHS = tuple(m.lower() for m in (\"Jan\", \"Feb\", \"Mar\"))\n    return _MONTHS\n\n\n" + _GY)
+B("c15-lazy-global-clock", ["C15"], "helpers.py", "    if year < 1600 or year > _highest_valid_year:\n",
+  "    if year < 1600 or year > _this_year() + 1:\n", rule=None)
+VARIANTS[-1]["edits"].append({"file": "helpers.py", "old": _GY,
+    "new": "_THIS_YEAR = None\n\n\ndef _this_year():\n    global _THIS_YEAR\n    if _THIS_YEAR is None:\n        _THIS_YEAR = date.today().year\n    return _THIS_YEAR\n\n\n" + _GY})
+B("c15-lazy-global-mutated-by-caller", ["C15"], "helpers.py", "    if year < 1600 or year > _highest_valid_year:\n",
+  "    seen = _seen_years()\n    seen.append(year)\n    if year < 1600 or year > _highest_valid_year:\n", rule=None)
+VARIANTS[-1]["edits"].append({"file": "helpers.py", "old": _GY,
+    "new": "_SEEN = None\n\n\ndef _seen_years():\n    global _SEEN\n    if _SEEN is None:\n        _SEEN = []\n    return _SEEN\n\n\n" + _GY})
+
+# ------------------------------------------------------------------ round-9 seeds (24; 11 at first contact, 24 after the rules of DESIGN 7.9)
+P("seed-C01-13", ["C01"], "seeded/C01-13/patch.diff")
+P("seed-C01-14", ["C01"], "seeded/C01-14/patch.diff")
+P("seed-C02-13", ["C02"], "seeded/C02-13/patch.diff")
+P("seed-C02-14", ["C02"], "seeded/C02-14/patch.diff")
+P("seed-C04-13", ["C04"], "seeded/C04-13/patch.diff")
+P("seed-C04-14", ["C04"], "seeded/C04-14/patch.diff")
+P("seed-C09-13", ["C09"], "seeded/C09-13/patch.diff")
+P("seed-C09-14", ["C09"], "seeded/C09-14/patch.diff")
+P("seed-C10-13", ["C10"], "seeded/C10-13/patch.diff")
+P("seed-C10-14", ["C10"], "seeded/C10-14/patch.diff")
+P("seed-C11-13", ["C11"], "seeded/C11-13/patch.diff")
+P("seed-C11-14", ["C11"], "seeded/C11-14/patch.diff")
+P("seed-C12-13", ["C12"], "seeded/C12-13/patch.diff")
+P("seed-C12-14", ["C12"], "seeded/C12-14/patch.diff")
+P("seed-C14-13", ["C14"], "seeded/C14-13/patch.diff")
+P("seed-C14-14", ["C14"], "seeded/C14-14/patch.diff")
+P("seed-C15-13", ["C15"], "seeded/C15-13/patch.diff")
+P("seed-C15-14", ["C15"], "seeded/C15-14/patch.diff")
+P("seed-C16-13", ["C16"], "seeded/C16-13/patch.diff")
+P("seed-C16-14", ["C16"], "seeded/C16-14/patch.diff")
+P("seed-C17-13", ["C17"], "seeded/C17-13/patch.diff")
+P("seed-C17-14", ["C17"], "seeded/C17-14/patch.diff")
+P("seed-C20-13", ["C20"], "seeded/C20-13/patch.diff")
+P("seed-C20-14", ["C20"], "seeded/C20-14/patch.diff")
+
+# ------------------------------------------------------------------ round-9 rules: own variants
+_SW = '            if word.groups["stop_word"] == "v" and index > 0:\n'
+_BS = "BACKWARD_SEEK = 28  # Median case name length in the CL db is 28 (2016-02-26)\n"
+B2("c04-constant-table-unguarded", ["C04"], [("helpers.py", _BS, _BS + '_VERSUS = {"v": True}\n'),
+    ("helpers.py", _SW, '            if _VERSUS[word.groups["stop_word"].lower()] and index > 0:\n')], rule="T13")
+N2("c04-constant-table-guarded", ["C04", "C01", "C17"], [("helpers.py", _BS, _BS + '_VERSUS = {"v": True}\n'),
+    ("helpers.py", _SW, '            if word.groups["stop_word"] in _VERSUS and _VERSUS[word.groups["stop_word"]] and index > 0:\n')])
+B("c10-steps-replace-loses-insertion", ["C10", "C11"], "annotate.py", '                yield "-", a2 - a1\n                yield "+", b2 - b1\n', '                yield "-", a2 - a1\n', rule="C10-R13")
+B("c10-steps-delete-as-equal", ["C10", "C11"], "annotate.py", '            elif operation == "delete":\n                yield "-", a2 - a1\n',
+  '            elif operation == "delete":\n                yield "=", a2 - a1\n', rule="C10-R13")
+B("c10-steps-equal-branch-dropped", ["C10", "C11"], "annotate.py", '            elif operation == "equal":\n                yield "=", a2 - a1\n', '', rule="C10-R13")
+N("c10-steps-equal-by-b-extent", ["C10", "C11", "C09"], "annotate.py", '            elif operation == "equal":\n                yield "=", a2 - a1\n',
+  '            elif operation == "equal":\n                yield "=", b2 - b1\n')
+N("c16-text-normalisation-through-corrected-reporter", ["C16", "C06", "C18"], "models.py",
+  '                self.groups.get("reporter"), self.edition_guess.short_name\n', '                self.groups.get("reporter"), self.corrected_reporter()\n')
+B("c16-text-normalisation-first-candidate", ["C16"], "models.py",
+  '        if self.edition_guess:\n            corrected = corrected.replace(\n                self.groups.get("reporter"), self.edition_guess.short_name\n            )\n',
+  '        if self.edition_guess or self.exact_editions:\n            corrected = corrected.replace(\n                self.groups.get("reporter"), (self.edition_guess or self.exact_editions[0]).short_name\n            )\n', rule="R-C16-9")
+B("c14-converter-early-return", ["C14"], "tokenizers.py", "                # hyperscan doesn't understand repetition flags like {,3},\n",
+  "                if \"{\" not in regex and regex.isascii():\n                    return regex.encode(\"utf8\")\n                if regex.startswith(\"(?:^|\"):\n                    return regex.encode(\"utf8\")\n                # hyperscan doesn't understand repetition flags like {,3},\n", rule="R-C14-8")
+B("c17-short-form-takes-following-year", ["C17"], "find.py", "    citation.guess_edition()\n    citation.guess_court()\n    return citation\n\n\ndef _extract_supra_citation(",
+  "    citation.guess_edition()\n    m2 = match_on_tokens(words, index + 1, r\"\\ ?\\((?P<year>\\d{4})\\)\", strings_only=True)\n    if m2:\n        citation.metadata.year = m2[\"year\"]\n    citation.guess_court()\n    return citation\n\n\ndef _extract_supra_citation(", rule="R-C17-2")
+
 # ------------------------------------------------------------------ generated whole-package benign rewrites (every property)
 for _g in ("reformat", "logging", "rename-locals"):
     VARIANTS.append({"id": f"gen-{_g}", "kind": "benign", "props": ["*"], "gen": _g})
@@ -634,7 +696,7 @@ _SKIP |= {"r4-annotate-2", "r4-find-4", "r4-helpers-3", "r4-resolve-4"}
 _SKIP |= {"r5-annotate-3", "r5-tokenizers-1", "r5-tokenizers-2", "r5-tokenizers-3"}
 _SKIP |= {"r6-annotate-2", "r6-annotate-3", "r6-clean-1", "r6-clean-3", "r6-find-1", "r6-find-3", "r6-helpers-1", "r6-helpers-3", "r6-models-1", "r6-resolve-1", "r6-resolve-3", "r6-tokenizers-2", "r6-tokenizers-3", "r6-utils-1", "r6-utils-3"}
 # r7 = feature / fix commits aimed at the areas of the round-8 rules (none of the new rules fires on them; the reports come from older rules)
-_SKIP |= {"r7-annotate-2", "r7-helpers-3", "r7-models-2", "r7-models-3", "r7-resolve-2", "r7-tokenizers-1", "r7-tokenizers-2", "r7-utils-1", "r7-utils-3", "r7-find-1", "r7-find-3"}
+_SKIP |= {"r7-annotate-2", "r7-resolve-2", "r7-tokenizers-1", "r7-tokenizers-2", "r7-utils-3", "r7-find-1", "r7-find-3"}
 for _f in sorted(_glob.glob(_os.path.join(_os.path.dirname(_os.path.dirname(__file__)), "benign", "*.diff"))):
     _n = _os.path.basename(_f)[:-5]
     if _n not in _SKIP:
